@@ -76,6 +76,39 @@ def determinism(args):
     return 0 if not bad else 2
 
 
+_NS_COUNTER = [0]
+
+
+def _run_check(argv, env, timeout=3600):
+    """One check invocation in its own session and its own sandbox namespace;
+    afterwards whatever it left running (workers of a batch that was stopped at
+    its first violation) is killed and the namespace removed."""
+    import signal
+    import types
+
+    from . import sandbox
+
+    _NS_COUNTER[0] += 1
+    ns = f"s{(os.getpid() * 1000 + _NS_COUNTER[0]) % 10_000_000:07d}"  # same width as the default p<pid>
+    env = dict(env, VERIF_SANDBOX_NS=ns)
+    p = subprocess.Popen(argv, env=env, stdout=subprocess.PIPE, stderr=subprocess.PIPE, text=True, start_new_session=True)
+    try:
+        out, err = p.communicate(timeout=timeout)
+    except subprocess.TimeoutExpired:
+        out, err = "", "timeout"
+    try:
+        os.killpg(p.pid, signal.SIGKILL)
+    except (ProcessLookupError, PermissionError):
+        pass
+    try:
+        p.wait(timeout=30)
+    except Exception:  # noqa: BLE001
+        pass
+    base = os.path.dirname(sandbox.base()) if os.environ.get("VERIF_SANDBOX_NS") else sandbox.base()
+    shutil.rmtree(os.path.join(base, ns), ignore_errors=True)
+    return types.SimpleNamespace(returncode=p.returncode if p.returncode is not None else -9, stdout=out, stderr=err)
+
+
 def _scratch_repo(patch):
     """A copy of /repo's working tree (src + tests/data) with one seeded patch applied."""
     from .repo import REPO
@@ -133,9 +166,9 @@ def sensitivity(args):
                     env["VERIF_REPO_SRC"] = os.path.join(d, "src")
                     env["VERIF_SEED"] = str(seed)
                     env["VERIF_REPLAY_DIR"] = os.path.join(d, "replays")  # private: concurrent runs never see each other's files
+                    env["VERIF_STOP_AT_FIRST"] = "1"  # the first violation in index order is what gets reported anyway
                     t0 = time.time()
-                    p = subprocess.run([CHECK, chk, "--tier", "quick", "--no-evidence", "--no-shrink"], env=env,
-                                       capture_output=True, text=True, timeout=3600, check=False)
+                    p = _run_check([CHECK, chk, "--tier", "quick", "--no-evidence", "--no-shrink"], env)
                     hit = p.returncode == 1 and "VIOLATION property=" in p.stdout
                     oracle = ""
                     for ln in p.stdout.splitlines():
@@ -171,7 +204,7 @@ def sensitivity(args):
         new_rows = sorted(kept + new_rows, key=lambda r: (r["seeded"], r["check"], r["verif_seed"]))
         tag = lambda r: f"{r['seeded']}/{r['check']}/seed{r['verif_seed']}"  # noqa: E731
         all_missed = [tag(r) for r in new_rows if not r["caught"]]
-        all_unreplayed = [tag(r) for r in new_rows if r["caught"] and r["replay_reproduced_in_fresh_interpreter"] is not True]
+        all_unreplayed = [tag(r) for r in new_rows if r["caught"] and r.get("replay_reproduced_in_fresh_interpreter") is not True]
     else:
         all_missed, all_unreplayed = missed, unreplayed
     with open(out, "w") as fh:
@@ -282,8 +315,7 @@ def specificity(args):
                 env["VERIF_REPO_SRC"] = os.path.join(d, "src")
                 env["VERIF_REPLAY_DIR"] = os.path.join(d, "replays")
                 t0 = time.time()
-                p = subprocess.run([CHECK, chk, "--tier", "quick", "--no-evidence", "--no-shrink"], env=env,
-                                   capture_output=True, text=True, timeout=3600, check=False)
+                p = _run_check([CHECK, chk, "--tier", "quick", "--no-evidence", "--no-shrink"], env)
                 ok = p.returncode == 0
                 rows.append((rid, chk, ok, round(time.time() - t0, 1)))
                 print(f"[specificity] {rid} vs {chk}: {'quiet' if ok else 'ALARM rc=%d' % p.returncode} ({time.time() - t0:.1f}s)", flush=True)
